@@ -547,30 +547,40 @@ func mergeData(newRecIter, baseRecIter *recordIter, maxRow int, ascending bool) 
 }
 
 func setSchemaColVal(field *record.Field, col *record.ColVal, rowIndex int) {
+	// the column is reduced to the value of the selected row; a null there stays a null (the
+	// column used to be left as it was, so that the value of another row was reported)
 	switch field.Type {
 	case influx.Field_Type_Float:
 		value, isNil := col.FloatValue(rowIndex)
+		col.Init()
 		if !isNil {
-			col.Init()
 			col.AppendFloat(value)
+		} else {
+			col.AppendFloatNull()
 		}
 	case influx.Field_Type_Int:
 		value, isNil := col.IntegerValue(rowIndex)
+		col.Init()
 		if !isNil {
-			col.Init()
 			col.AppendInteger(value)
+		} else {
+			col.AppendIntegerNull()
 		}
 	case influx.Field_Type_String:
 		value, isNil := col.StringValueSafe(rowIndex)
+		col.Init()
 		if !isNil {
-			col.Init()
 			col.AppendString(value)
+		} else {
+			col.AppendStringNull()
 		}
 	case influx.Field_Type_Boolean:
 		value, isNil := col.BooleanValue(rowIndex)
+		col.Init()
 		if !isNil {
-			col.Init()
 			col.AppendBoolean(value)
+		} else {
+			col.AppendBooleanNull()
 		}
 	}
 }
